@@ -526,6 +526,7 @@ def run(chk: Check):
     rule_a7_a8(chk, ir)
     rule_a9(chk, tr)
     rule_kind_guard(chk)
+    rule_combinators(chk)
     chk.floor("A5-loc-key", 300)
     chk.floor("A6-scalar-kind", 60)
     chk.floor("A2-no-lost-capture", 150)
@@ -534,3 +535,176 @@ def run(chk: Check):
     chk.floor("A7-associativity", 12)
     chk.floor("A8-precedence-ladder", 13)
     chk.floor("A9-argument-layout", 7)
+
+
+# ------------------------------------------------------------------ runtime combinators the generated code relies on
+def rule_combinators(chk: Check):
+    """Backtracking discipline of the hand-written combinators (every generated rule is built from them) and the
+    seed-growing loop that makes binary operators left-associative."""
+    from ..pyflow import CFG, Index, own_nodes
+    ix = Index()
+    R = "R-combinators"
+
+    def fn(q):
+        return ix.get(q)
+
+    def alpha(fnode):
+        """Copy of the function with locals renamed in order of first binding (so that renames are invisible)."""
+        import copy
+        f2 = copy.deepcopy(fnode)
+        params = [a.arg for a in f2.args.args]
+        order: list[str] = []
+        for n in ast.walk(f2):
+            if isinstance(n, ast.Name) and isinstance(n.ctx, ast.Store) and n.id not in order and n.id not in params:
+                order.append(n.id)
+        # first binding order by position
+        binds = sorted({(n.lineno, n.col_offset, n.id) for n in ast.walk(f2) if isinstance(n, ast.Name) and isinstance(n.ctx, ast.Store)
+                        and n.id not in params})
+        seen: dict[str, str] = {}
+        for _, _, name in binds:
+            seen.setdefault(name, f"v{len(seen)}")
+        for n in ast.walk(f2):
+            if isinstance(n, ast.Name) and n.id in seen:
+                n.id = seen[n.id]
+        return f2
+
+    def stmts(f):
+        f2 = alpha(f.node)
+        return [norm_stmt(s) for s in f2.body if not (isinstance(s, ast.Expr) and isinstance(s.value, ast.Constant))]
+
+    def paths(f):
+        """Path set of a loop-free function: each path is the sequence of (normalised) conditions, effects and the return."""
+        f2 = alpha(f.node)
+
+        def lit(test, truth):
+            while isinstance(test, ast.UnaryOp) and isinstance(test.op, ast.Not):
+                test, truth = test.operand, not truth
+            return ("cond", norm_stmt(test), truth)
+
+        out = []
+
+        def run(stmts_, acc):
+            for i, st in enumerate(stmts_):
+                if isinstance(st, ast.Expr) and isinstance(st.value, ast.Constant):
+                    continue
+                if isinstance(st, ast.If):
+                    run(st.body + stmts_[i + 1:], acc + [lit(st.test, True)])
+                    run(st.orelse + stmts_[i + 1:], acc + [lit(st.test, False)])
+                    return
+                if isinstance(st, ast.Return):
+                    out.append(tuple(acc + [("return", norm_stmt(st.value) if st.value is not None else "None")]))
+                    return
+                if isinstance(st, (ast.For, ast.While, ast.Try, ast.With)):
+                    raise AnalysisError("loop in a function expected to be loop-free")
+                acc = acc + [("do", norm_stmt(st))]
+            out.append(tuple(acc + [("return", "None")]))
+
+        run(list(f2.body), [])
+        return set(out)
+
+    # leaf matchers: peek, compare, consume exactly one token on success, nothing on failure
+    leaves = {
+        "Parser.name": "v0.type == Token.NAME and v0.string not in self.KEYWORDS",
+        "Parser.keyword": "v0.type == Token.NAME and v0.string in self.KEYWORDS",
+        "Parser.soft_keyword": "v0.type == Token.NAME and v0.string in self.SOFT_KEYWORDS",
+        "Parser.token": "v0.type == Token[typ]",
+        "Parser.expect": "v0.string == typ",
+    }
+    for q, cond in leaves.items():
+        f = fn(q)
+        chk.count(R)
+        peek = ("do", "v0 = self._tokenizer.peek()")
+        want = {(peek, ("cond", cond, True), ("return", "self._tokenizer.getnext()")), (peek, ("cond", cond, False), ("return", "None"))}
+        chk.require(paths(f) == want, R, q, f.where,
+                    f"`{q}` must peek one token, consume it exactly when `{cond.replace('v0', 'tok')}`, and otherwise return None without consuming")
+    # look-aheads never consume
+    for q, ret in (("Parser.positive_lookahead", "v1"), ("Parser.negative_lookahead", "not v1")):
+        f = fn(q)
+        chk.count(R)
+        want = {(("do", "v0 = self._mark()"), ("do", "v1 = func(*args)"), ("do", "self._reset(v0)"), ("return", ret))}
+        chk.require(paths(f) == want, R, q, f.where,
+                    f"`{q}` must restore the position unconditionally and return {'the result' if 'not' not in ret else 'its negation'}")
+    # repetition: keep the position after the last successful item
+    f = fn("Parser.repeated")
+    chk.count(R)
+    chk.require(stmts(f) == ["v0 = self._mark()", "v1 = []",
+                             "while (v2 := func(*args)): v1.append(v2) v0 = self._mark()",
+                             "self._reset(v0)", "return v1"], R, "Parser.repeated", f.where,
+                "`repeated` must collect results in order, remember the position after each success and restore it after the failing attempt")
+    # ordered choice without actions: first truthy result, position restored between alternatives
+    f = fn("Parser.seq_alts")
+    cfg = CFG(f.node)
+    chk.count(R)
+    loop = [n for n in own_nodes(f.node) if isinstance(n, ast.For)]
+    ok = len(loop) == 1 and norm_stmt(loop[0].iter) == "alt" and \
+        [norm_stmt(s) for s in loop[0].body][-2:] == ["if res: return res", "self._reset(mark)"] and \
+        norm_stmt(f.node.body[-1]) == "return None" and any(norm_stmt(s) == "mark = self._mark()" for s in f.node.body)
+    chk.require(ok, R, "Parser.seq_alts", f.where,
+                "`seq_alts` must try the alternatives in the order given, return the first truthy result and restore the position after each failure")
+    f = fn("Parser.gathered")
+    chk.count(R)
+    src = [norm_stmt(s0) for s0 in f.node.body if not (isinstance(s0, ast.Expr) and isinstance(s0.value, ast.Constant))]
+    chk.require("mark = self._mark()" in src and "self._reset(mark)" in src and src[-1] == "return None" and
+                any("return [elem, *seq]" in s for s in src), R, "Parser.gathered", f.where,
+                "`gathered` must return the first element followed by the separated rest, and restore the position on failure")
+    f = fn("Parser.sep_repeated")
+    chk.count(R)
+    chk.require(paths(f) == {(("cond", "sep_func(*sep_args) and (v0 := self.seq_alts(func))", True), ("return", "v0")),
+                             (("cond", "sep_func(*sep_args) and (v0 := self.seq_alts(func))", False), ("return", "None"))}, R,
+                "Parser.sep_repeated", f.where, "a separated repetition step is separator then element, returning the element")
+    # the token filter between tokenizer and parser
+    f = fn("Tokenizer.is_blank")
+    chk.count(R)
+    want = {
+        (("cond", "self._proc_macro and tok.type == Token.WS", True), ("return", "False")),
+        (("cond", "self._proc_macro and tok.type == Token.WS", False), ("cond", "tok.type in {Token.NL, Token.COMMENT, Token.WS}", True), ("return", "True")),
+        (("cond", "self._proc_macro and tok.type == Token.WS", False), ("cond", "tok.type in {Token.NL, Token.COMMENT, Token.WS}", False),
+         ("cond", "tok.type == Token.ERRORTOKEN and tok.string.isspace()", True), ("return", "True")),
+        (("cond", "self._proc_macro and tok.type == Token.WS", False), ("cond", "tok.type in {Token.NL, Token.COMMENT, Token.WS}", False),
+         ("cond", "tok.type == Token.ERRORTOKEN and tok.string.isspace()", False),
+         ("cond", "tok.type == Token.NEWLINE and self._tokens and (self._tokens[-1].type == Token.NEWLINE)", True), ("return", "True")),
+        (("cond", "self._proc_macro and tok.type == Token.WS", False), ("cond", "tok.type in {Token.NL, Token.COMMENT, Token.WS}", False),
+         ("cond", "tok.type == Token.ERRORTOKEN and tok.string.isspace()", False),
+         ("cond", "tok.type == Token.NEWLINE and self._tokens and (self._tokens[-1].type == Token.NEWLINE)", False), ("return", "False")),
+    }
+    chk.require(paths(f) == want, R, "Tokenizer.is_blank", f.where,
+                "the token filter must drop exactly NL, COMMENT, WS (outside raw capture), blank ERRORTOKENs and a NEWLINE that directly "
+                "follows a NEWLINE")
+    # position bookkeeping of the token cache
+    f = fn("Tokenizer.getnext")
+    chk.count(R)
+    src = [norm_stmt(s0) for s0 in f.node.body if not (isinstance(s0, ast.Expr) and isinstance(s0.value, ast.Constant))]
+    chk.require("tok = self.peek()" in src and "self._index = Mark(self._index + Mark(1))" in src and src[-1] == "return tok"
+                and src.index("tok = self.peek()") < src.index("self._index = Mark(self._index + Mark(1))"), R, "Tokenizer.getnext", f.where,
+                "`getnext` must return the token at the current index and advance the index by exactly one")
+    f = fn("Tokenizer.peek")
+    chk.count(R)
+    rets = [norm_stmt(n) for n in own_nodes(f.node) if isinstance(n, ast.Return)]
+    loops = [n for n in own_nodes(f.node) if isinstance(n, ast.While)]
+    chk.require(rets == ["return self._tokens[self._index]"] and len(loops) == 1 and
+                norm_stmt(loops[0].test) == "self._index == len(self._tokens)" and
+                any(norm_stmt(s) == "self._tokens.append(tok)" for s in loops[0].body), R, "Tokenizer.peek", f.where,
+                "`peek` must fetch (and append) tokens only while the index is at the end of the cache and return the token at the index")
+    # left recursion by seed growing
+    f = fn("memoize_left_rec.memoize_left_rec_wrapper")
+    node = f.node
+    chk.count(R)
+    prime = [n for n in own_nodes(node) if isinstance(n, ast.Assign) and norm_stmt(n) == "self._cache[key] = (None, mark)"]
+    grow = [n for n in own_nodes(node) if isinstance(n, ast.While) and isinstance(n.test, ast.Constant) and n.test.value is True]
+    ok = len(prime) == 1 and len(grow) == 1
+    if ok:
+        body = [norm_stmt(s) for s in grow[0].body if not (isinstance(s, ast.If) and "verbose" in norm_stmt(s.test))]
+        # reset to the start, run, stop on failure or when no longer than before, else remember the longer parse
+        want_order = ["self._reset(mark)", "self.in_recursive_rule += 1", "endmark = self._mark()", "depth += 1"]
+        pos = [next((i for i, s in enumerate(body) if s.startswith(w)), -1) for w in want_order]
+        stops = [s for s in body if s.startswith("if not result:") or s.startswith("if endmark <= lastmark:")]
+        store = [s for s in body if s.startswith("self._cache[key] = lastresult, lastmark = (result, endmark)")]
+        ok = all(p >= 0 for p in pos[:3]) and pos[0] < pos[2] and len(stops) == 2 and all("break" in s for s in stops) and len(store) == 1 \
+            and body.index(store[0]) > max(body.index(s) for s in stops) and prime[0].lineno < grow[0].lineno
+        after = [norm_stmt(s) for s in ast.walk(node) if isinstance(s, ast.stmt) and getattr(s, "lineno", 0) > grow[0].end_lineno]
+        ok = ok and "self._reset(lastmark)" in after and "tree = lastresult" in after
+    chk.require(ok, R, "memoize_left_rec:seed-growing", f.where,
+                "left recursion must be grown from a failure seed: prime the cache with (None, mark); repeatedly restart at mark and re-run the "
+                "rule; stop when it fails or does not get longer (`endmark <= lastmark`); otherwise store the longer parse as the new seed; "
+                "finally return to the longest parse. This is what makes `a - b - c` parse as `(a - b) - c`")
+    chk.floor(R, 14)
